@@ -94,6 +94,9 @@ func tabNode(rec string) *enode.Node {
 	var seq uint64
 	fmt.Sscanf(p[1], "%d", &seq)
 	ep := tabEndpoints[p[2]]
+	if len(p) > 3 { // "<id>.<seq>.<endpoint>.<form>": the address in another record form (c07_forms.go)
+		return tabNodeAddr(tabID(p[0]), tabFormAddr(ep.ip, p[3]), ep.port, seq)
+	}
 	return portalwire.VNode(tabID(p[0]), ep.ip, ep.port, seq)
 }
 
@@ -276,7 +279,7 @@ func (t *tabEnv) applyNoWait(ev string) string {
 	switch p[0] {
 	case "found":
 		t.vt.AddFound(tabNode(p[1]), false)
-	case "foundlive": // start-state construction only
+	case "foundlive": // forceSetLive: start-state construction, and AddEnr / processPong etc. for known nodes (c07LiveRecs)
 		t.vt.AddFound(tabNode(p[1]), true)
 	case "inbound":
 		t.vt.AddInbound(tabNode(p[1]))
@@ -305,7 +308,14 @@ func (t *tabEnv) applyNoWait(ev string) string {
 		}
 		cur := req.node
 		var a pingAnswer
-		switch p[2] {
+		kind := p[2]
+		fa, formed := tabFormAnswer(cur, kind) // "newform", and address changes of real IPv6 records (c07_forms.go)
+		if formed {
+			kind = "(form)"
+		}
+		switch kind {
+		case "(form)":
+			a = fa
 		case "alive":
 			a = pingAnswer{seq: cur.Seq()}
 		case "dead":
